@@ -10,6 +10,7 @@ import Driver.C07
 import Driver.C04
 import Driver.C05
 import Driver.C17
+import Driver.C16
 /-
   kdriver: one request per line on stdin, `model<TAB>spec` per line on stdout.
   Anything it cannot parse is answered `bad-op<TAB>bad-op` (never a default value).
@@ -34,6 +35,7 @@ def dispatch (line : String) : String :=
       else if op.startsWith "chars." then Driver.C07.handleChars (op.drop 6).toString args
       else if op.startsWith "b." || op.startsWith "st." then (Driver.C04.handle op args).orElse fun _ => Driver.C05.handle op args
       else if op = "prog" ∨ op = "prog.v" then Driver.C17.handle op args
+      else if op.startsWith "cmp." || op.startsWith "eq." || op.startsWith "assertc." then Driver.C16.handle op args
       else none
   match r with
   | some (m, s) => m ++ "\t" ++ s
